@@ -9,12 +9,12 @@
    same oldest first, [last_revno b] its length.  [merge_sorted g tip] is the
    Gallina rendering of the merge-sort numbering rules; the real numbering is
    computed by compiled vcsgraph (outside /repo) and compared with it on every
-   generated history by harness/props/c22.py -- that agreement, and the
-   distinctness of the dotted revnos ([ms_good], evaluated by the oracle on
-   every real merge-sorted list), are the PARTIAL part of C22. *)
+   generated history by harness/props/c22.py -- that agreement is the PARTIAL
+   part of C22 (everything about the numbering rules themselves, including the
+   distinctness of the dotted revnos, is proved). *)
 From Coq Require Import List Arith Bool ZArith Permutation.
 From BV Require Import Lib.Dag Theory.DagFacts Lib.DagMergeSort Theory.DagMergeSortFacts
-                       Theory.DagMergeSortMainline Model.RevSpec Theory.RevSpec.
+                       Theory.DagMergeSortMainline Theory.DagMergeSortRevnos Model.RevSpec Theory.RevSpec.
 Import ListNotations.
 
 (* ---- revision number n names the n-th revision of the left-hand history ------------- *)
@@ -73,24 +73,27 @@ Theorem C22_lookup_inverse :
 Proof. exact lookup_inverse. Qed.
 Print Assumptions C22_lookup_inverse.
 
-(* ---- the merge-sorted list: ids = the ancestry, each once (PARTIAL: revnos) ---------- *)
+(* ---- the merge-sorted list: ids = the ancestry, each once; revnos distinct -------------- *)
 
-(* the ids are exactly the present ancestors of the tip, each exactly once;
-   the depth-0 entries are the left-hand history.  NOT proved here: the dotted
-   revnos are pairwise distinct (checked on the real lists by the oracle). *)
-Theorem C22_merge_sort_ids_partial :
+(* the ids are exactly the present ancestors of the tip, each exactly once; the
+   dotted revnos are pairwise distinct; the depth-0 entries are the left-hand
+   history.  ("_partial" only in that the list is the Gallina merge sort: its
+   agreement with compiled vcsgraph is a correspondence fact.) *)
+Theorem C22_merge_sort_revnos_unique_partial :
   forall g (t : revid), wf_dag g = true -> t < length g ->
   NoDup (ms_ids (merge_sorted g (Some t))) /\
+  NoDup (ms_revnos (merge_sorted g (Some t))) /\
   (forall x, In x (ms_ids (merge_sorted g (Some t))) <-> reach g x t /\ x < length g) /\
   Permutation (ms_ids (merge_sorted g (Some t))) (filter (present g) (ancestors g [t])) /\
   (lefthand_present g t = true -> map e_id (depth0 (merge_sorted g (Some t))) = lefthand g t).
 Proof.
-  intros g t W L. split; [apply merge_sorted_NoDup; exact W|]. split; [|split].
+  intros g t W L. split; [apply merge_sorted_NoDup; exact W|].
+  split; [apply merge_sorted_revnos_NoDup|]. split; [|split].
   - intros x. apply merge_sorted_ids; assumption.
   - apply merge_sorted_perm; assumption.
   - intros P. apply depth0_is_lefthand; assumption.
 Qed.
-Print Assumptions C22_merge_sort_ids_partial.
+Print Assumptions C22_merge_sort_revnos_unique_partial.
 
 (* the numbering of the left-hand history IS proved: an entry on the left-hand
    history carries its position (counted from the root) as a one-component
@@ -112,14 +115,22 @@ Theorem C22_mainline_numberings_agree :
 Proof. exact mainline_revno_agrees. Qed.
 Print Assumptions C22_mainline_numberings_agree.
 
-(* so the hypothesis [ms_good] of the next theorems reduces, for the Gallina
-   merge sort, to the distinctness of the revnos alone *)
-Theorem C22_ms_good_from_distinct :
+(* a development line (a, k, 1), (a, k, 2), ... is a chain of left-hand parents *)
+Theorem C22_merge_sort_same_line :
+  forall g (t : revid), wf_dag g = true -> t < length g ->
+  forall es ee a k x y, In es (merge_sorted g (Some t)) -> In ee (merge_sorted g (Some t)) ->
+  e_revno es = [a; k; x] -> e_revno ee = [a; k; y] -> x <= y ->
+  In (e_id es) (lefthand g (e_id ee)).
+Proof. exact merge_sorted_same_line. Qed.
+Print Assumptions C22_merge_sort_same_line.
+
+(* so the hypothesis [ms_good] of the next theorems (revnos distinct, one component
+   iff on the left-hand history) holds for every consistent branch *)
+Theorem C22_ms_good :
   forall b (t : revid), wf_dag (br_g b) = true -> br_tip b = Some t ->
-  t < length (br_g b) -> lefthand_present (br_g b) t = true ->
-  NoDup (ms_revnos (merge_sorted (br_g b) (br_tip b))) -> ms_good b.
-Proof. exact ms_good_from_distinct. Qed.
-Print Assumptions C22_ms_good_from_distinct.
+  t < length (br_g b) -> lefthand_present (br_g b) t = true -> ms_good b.
+Proof. exact ms_good_holds. Qed.
+Print Assumptions C22_ms_good.
 
 (* id -> dotted revno -> id and dotted revno -> id -> dotted revno, through the
    code's two paths (mainline by position, everything else by the revno map);
